@@ -237,8 +237,27 @@ package h2
 //@ func (*relay).decodeFull
 //@   serves C08
 //@   trusted
-//@   modifies lastDecoded
+//@   modifies lastDecoded, lastDecodedFrom
 //@   ensures result1 == nil ==> lastDecoded == result0
+//@   ensures lastDecodedFrom == data
+
+// The relay's continuation buffer, abstractly: how many bytes it holds, in how many fragments since the last Reset,
+// and which slice was written first. A header block split over CONTINUATION frames must be decoded from exactly the
+// fragments of that block.
+//@ ghost var lastDecodedFrom []byte
+//@ ghost field bytes.Buffer.bparts int
+//@ ghost field bytes.Buffer.bfirst []byte
+//@ ghost field bytes.Buffer.bview []byte
+//@ extern func (*bytes.Buffer).Reset
+//@   modifies self.blen, self.bparts
+//@   ensures self.blen == 0 && self.bparts == 0
+//@ extern func (*bytes.Buffer).Write
+//@   modifies self.blen, self.bparts, self.bfirst
+//@   ensures self.blen == old(self.blen) + len(p) && self.bparts == old(self.bparts) + 1 && self.bfirst == ite(old(self.bparts) == 0, p, old(self.bfirst))
+//@   ensures result0 == len(p) && result1 == nil
+//@ extern func (*bytes.Buffer).Bytes
+//@   modifies self.bview
+//@   ensures len(result) == self.blen && self.bview == result
 
 // A continued header block is completed with the END_STREAM flag, priority or promised stream id of the frame that
 // started it.
@@ -282,6 +301,15 @@ package h2
 //@        pcEnd == as(f, *http2.HeadersFrame).StreamEnded() && pcPrio == as(f, *http2.HeadersFrame).Priority
 //@   ensures[headers-continued-later] typeis(f, *http2.HeadersFrame) && !as(f, *http2.HeadersFrame).HeadersEnded() ==> pcN == old(pcN) &&
 //@        typeis(r.continuationState, *headerContinuation) && pendEnd == as(f, *http2.HeadersFrame).StreamEnded() && pendPrio == as(f, *http2.HeadersFrame).Priority
+//@   ensures[continuation-buffer-holds-exactly-the-first-fragment] typeis(f, *http2.HeadersFrame) && !as(f, *http2.HeadersFrame).HeadersEnded() ==>
+//@        r.headerBuffer.bparts == 1 && r.headerBuffer.blen == len(as(f, *http2.HeadersFrame).HeaderBlockFragment()) && r.headerBuffer.bfirst == as(f, *http2.HeadersFrame).HeaderBlockFragment()
+//@   ensures[continuation-buffer-holds-exactly-the-first-fragment-of-the-promise] typeis(f, *http2.PushPromiseFrame) && !as(f, *http2.PushPromiseFrame).HeadersEnded() ==>
+//@        r.headerBuffer.bparts == 1 && r.headerBuffer.blen == len(as(f, *http2.PushPromiseFrame).HeaderBlockFragment()) && r.headerBuffer.bfirst == as(f, *http2.PushPromiseFrame).HeaderBlockFragment()
+//@   ensures[continuation-fragment-appended] typeis(f, *http2.ContinuationFrame) ==> r.headerBuffer.bparts == old(r.headerBuffer.bparts) + 1 &&
+//@        r.headerBuffer.blen == old(r.headerBuffer.blen) + len(as(f, *http2.ContinuationFrame).HeaderBlockFragment()) && (old(r.headerBuffer.bparts) > 0 ==> r.headerBuffer.bfirst == old(r.headerBuffer.bfirst))
+//@   ensures[continued-block-decoded-from-the-whole-buffer] typeis(f, *http2.ContinuationFrame) && as(f, *http2.ContinuationFrame).HeadersEnded() ==> lastDecodedFrom == r.headerBuffer.bview && len(lastDecodedFrom) == r.headerBuffer.blen
+//@   ensures[single-frame-block-decoded-from-its-own-fragment] typeis(f, *http2.HeadersFrame) && as(f, *http2.HeadersFrame).HeadersEnded() ==> lastDecodedFrom == as(f, *http2.HeadersFrame).HeaderBlockFragment()
+//@   ensures[single-frame-promise-decoded-from-its-own-fragment] typeis(f, *http2.PushPromiseFrame) && as(f, *http2.PushPromiseFrame).HeadersEnded() ==> lastDecodedFrom == as(f, *http2.PushPromiseFrame).HeaderBlockFragment()
 //@   ensures[continuation-completes-with-pending-flags] typeis(f, *http2.ContinuationFrame) && as(f, *http2.ContinuationFrame).HeadersEnded() && result == nil &&
 //@        typeis(old(r.continuationState), *headerContinuation) ==> pcN == old(pcN) + 1 && pcKind == 2 &&
 //@        pcSelf == procOf(r, as(f, *http2.ContinuationFrame).StreamID) && pcHeaders == lastDecoded && pcEnd == old(pendEnd) && pcPrio == old(pendPrio)
@@ -301,9 +329,9 @@ package h2
 //@   ensures[unknown-frame-is-an-error] !typeis(f, *http2.DataFrame) && !typeis(f, *http2.HeadersFrame) && !typeis(f, *http2.PriorityFrame) && !typeis(f, *http2.RSTStreamFrame) &&
 //@        !typeis(f, *http2.SettingsFrame) && !typeis(f, *http2.PushPromiseFrame) && !typeis(f, *http2.PingFrame) && !typeis(f, *http2.GoAwayFrame) &&
 //@        !typeis(f, *http2.WindowUpdateFrame) && !typeis(f, *http2.ContinuationFrame) ==> result != nil && pcN == old(pcN)
-//@   at call 0 of Reset after set pendEnd = f.StreamEnded()
-//@   at call 0 of Reset after set pendPrio = f.Priority
-//@   at call 1 of Reset after set pendPromise = f.PromiseID
+//@   at call 0 of Write after set pendEnd = f.StreamEnded()
+//@   at call 0 of Write after set pendPrio = f.Priority
+//@   at call 1 of Write after set pendPromise = f.PromiseID
 
 //@ func (*relay).updateTableSize
 //@   serves C08
